@@ -442,14 +442,13 @@ def run_impl(case):
                 keep.append(base)
             else:
                 desc["buf"] = None
-            # ground truth for the monitor: does the object really overlap the stored previous publication?
+            # ground truth for the monitor: do two retained publications really overlap in memory afterwards?
             really = False
-            if out.data and raw is not None and not isinstance(out.data[-1][1], str):
-                prev = out.data[-1][1].magnitude
-                really = bool(np.shares_memory(np.ma.getdata(prev), raw))
             try:
                 out.push_data(obj, T(op[1]))
                 res = "ok"
+                if len(out.data) >= 2:
+                    really = bool(np.shares_memory(np.ma.getdata(out.data[-1][1].magnitude), np.ma.getdata(out.data[-2][1].magnitude)))
             except Exception as e:  # noqa
                 res = err_class(e)
             events.append({"op": "push", "t": op[1], "payload": desc, "res": res, "really_shares": really})
@@ -566,6 +565,8 @@ def _expected_form(case, obs, p):
             return 1, perm, list(gs)
         return 1, None, list(gs)
     if len(sh) == len(gs) + 1 and sh[0] > 1 and list(sh[1:]) == list(gs):
+        if isinstance(case["mask"], list) and len(case["mask"]) > 1 and p["mask"] is None:
+            return None  # k stacked entries do not fit the fixed mask of one entry (numpy MaskError)
         return sh[0], None, list(gs)
     return None
 
@@ -618,7 +619,7 @@ def _sim(case, obs):
             units_ok = p["units"] is None or UNIT_TABLE[p["units"]][0] == UNIT_TABLE[case["uo"]][0]
             accepted = ev["res"] == "ok"
             if ev["really_shares"] and accepted:
-                fails.append(f"push at t={ev['t']}: array sharing memory with the previous publication was accepted")
+                fails.append(f"push at t={ev['t']}: accepted, and the stored publication shares memory with the previous one")
             if accepted and (form is None or not units_ok):
                 fails.append(f"push at t={ev['t']}: payload of shape {p['shape']} / units {p['units']!r} accepted for grid shape {obs['gshape']} / units {case['uo']!r}")
             if not accepted and ev["res"] not in ("DataError", "MaskError"):
